@@ -145,11 +145,56 @@ def real_graph(story):
     return edges, sorted(referenced), sorted(defined)
 
 
+def report_of_generate_graph(story):
+    """what `bardic graph` tells the author: (missing passages listed, nodes drawn as [MISSING], edges drawn) - the command's own
+    function run on the story written to a file, with the Graphviz rendering step (an external program) left out"""
+    import io
+    import tempfile
+    import contextlib
+    import graphviz
+    from bardic.cli.graph import generate_graph
+    d = tempfile.mkdtemp(prefix="verif_graph_")
+    seen = {}
+    orig = graphviz.Digraph.render
+    try:
+        path = os.path.join(d, "story.json")
+        with open(path, "w", encoding="utf-8") as f:
+            json.dump(story, f)
+
+        def fake_render(self, *a, **kw):
+            seen["source"] = self.source
+            return path
+        graphviz.Digraph.render = fake_render
+        buf = io.StringIO()
+        with contextlib.redirect_stdout(buf):
+            generate_graph(path, os.path.join(d, "out"), format="svg")
+        text = buf.getvalue()
+    finally:
+        graphviz.Digraph.render = orig
+        import shutil
+        shutil.rmtree(d, ignore_errors=True)
+    listed = []
+    if "Missing passages" in text:
+        part = text.split("Missing passages", 1)[1].split("\n\n")[0]
+        listed = [l[4:] for l in part.split("\n")[1:] if l.startswith("  - ")]
+    drawn = re.findall(r'^\s*"?([^"\n]+?)"? \[label="[^"]*\[MISSING\]"', seen.get("source", ""), re.M)
+    return sorted(listed), sorted(drawn), text
+
+
 def check_story(story, model, walk_case, label, source=None, corrupted=None):
     """returns (c18 fails, c12 fails, disagreements)"""
     f18, f12, dis = [], [], []
     def add(lst, what, cls=None):
         lst.append({"cls": cls, "what": what, "family": label, "source": source})
+    # ------------------------------------------------ C18: what the command itself reports
+    try:
+        listed, drawn, _ = report_of_generate_graph(story)
+        sites0 = all_sites(story)
+        really = sorted({t for (s_, t, a_, n_, j_) in sites0 if t and t != "@join" and t not in story["passages"]})
+        if listed != really:
+            add(f18, f"`bardic graph` lists the missing passages {listed}; the referenced targets that are not defined are {really}")
+    except Exception as e:  # noqa
+        add(f18, f"`bardic graph` (generate_graph) failed on a compiled story: {type(e).__name__}: {str(e)[:120]}")
     # ------------------------------------------------ C18
     edges, referenced, defined = real_graph(story)
     sites = all_sites(story)
@@ -392,6 +437,9 @@ def graph_family(rep, n_cases, n_ops, which, known_classes=(), nproc=16):
 
 
 FIXED_GRAPH_STORIES = [
+    # undefined targets referenced from a passage nobody links to (an unfinished draft), inside blocks
+    (":: Start\nhi\n+ [go] -> Hall\n\n:: Hall\nhall\n@if True:\n  + [up] -> Attic\n@endif\n+ [back] -> Start\n\n"
+     ":: Draft\nnot linked yet\n@if True:\n  + [down] -> Crypt\n  @for i in [1]:\n    -> Cellar\n  @endfor\n@endif\n"),
     # unusual but accepted spellings of call sites inside blocks; every offered choice is taken once from a fresh engine
     (":: Market\n~ coins = 5\nStalls.\n@if coins >= 3:\n  + [Haggle] -> Stall (3)\n  + [Tab] -> Stall\t(4)\n@endif\n@for k in [1, 2]:\n  + [Loop {k}] -> Stall  (k)\n@endfor\n"
      "+ [plain] -> Stall(1)\n+ [dotted] -> Town.Inn(2)\n@if coins > 1:\n  + [dotted in block] -> Town.Inn(3)\n  + [deep] -> Town.Inn.Room(1)\n@endif\n\n"
